@@ -72,6 +72,11 @@ class ParamsGenerator:
 
     if model_qsvs is None:
       model_qsvs = {}
+    else:
+      # Materialization overwrites statistics in place (same-scale ops and
+      # fixed output ranges): work on a copy, the caller owns the result and
+      # may reuse it with another recipe.
+      model_qsvs = copy.deepcopy(model_qsvs)
 
     op_codes = self.flatbuffer_model.operatorCodes
     for subgraph in self.flatbuffer_model.subgraphs:
